@@ -14,6 +14,7 @@ C07 — resolvers only receive arguments that conform to the declared input type
 import ast
 import json
 import sys
+import time
 
 from common import REPO
 from corr import C07_universe as U
@@ -1915,6 +1916,100 @@ def run_code_defaults(ctx):
                                   "kwargs": repr(kw)})
 
 
+def run_default_shapes(ctx):
+    """Named probes (no randomness) for three ways a DECLARED DEFAULT reaches the resolver in another shape than the same value written
+    in the request - "input objects are dictionaries keyed by the configured Python names with declared defaults filled in", "unknown
+    input fields are rejected", "inline or through a variable: the same arguments":
+      A11  code-first: `InputField("inner", Inner, default_value={})` with `Inner.x` defaulting to 3 is handed over as declared
+           ({'inner': {}}), the schema built from the equivalent SDL completes it ({'inner': {'x': 3}});
+      T14  after VisibilitySchemaTransform hid the input field `secret`, the defaults that mention it keep the key (C14's finding,
+           seen here at the resolver);
+      A12  `scalar Date` implemented by a plain SchemaVisitor through transform_schema: SDL defaults stay the stand-in's strings."""
+    import datetime
+    from py_gql import build_schema, graphql_blocking
+    from py_gql.schema import Argument, Field, InputField, InputObjectType, Int, ObjectType, ScalarType, Schema, SchemaVisitor
+    from py_gql.schema.transforms import VisibilitySchemaTransform, transform_schema
+    seen = []
+
+    def rec(root, c, info, **kw):
+        seen.append(kw)
+        return 1
+
+    def ask(schema, doc, variables=None):
+        seen[:] = []
+        try:
+            r = graphql_blocking(schema, doc, variables=variables)
+        except Exception as e:  # noqa
+            return ("raised", type(e).__name__)
+        if r.errors or not seen:
+            return ("errors", [str(e)[:80] for e in (r.errors or [])])
+        return ("ok", seen[0])
+
+    def probe(sig, what, name, build, omitted_doc, inline_doc, var_doc, variables, key_ok=None):
+        """the arguments of the omitted form (declared defaults) must equal those of the same values written inline / sent as variables"""
+        try:
+            schema = build()
+        except Exception as e:  # noqa
+            ctx.stat("default-shape:%s:schema-refused:%s" % (name, type(e).__name__))
+            return
+        a, b, c = ask(schema, omitted_doc), ask(schema, inline_doc), ask(schema, var_doc, variables)
+        ctx.count(3)
+        ctx.nontrivial(("default-shape", name))
+        bad = not (a[0] == b[0] == c[0] == "ok" and a[1] == b[1] == c[1])
+        if not bad and key_ok is not None:
+            bad = not key_ok(a[1])
+        ctx.stat("default-shape:%s:%s" % (name, "differs" if bad else "agrees"))
+        if bad:
+            ctx.fail(sig, what + " - omitted: %r, inline: %r, variables: %r" % (a, b, c),
+                     {"check": "default-shape", "name": name, "omitted": repr(a), "inline": repr(b), "variables": repr(c)})
+
+    # A11 ------------------------------------------------------------------------------------------------------------
+    def code_first():
+        inner = InputObjectType("Inner", [InputField("x", Int, default_value=3)])
+        outer = InputObjectType("Outer", [InputField("inner", inner, default_value={}), InputField("k", Int)])
+        s = Schema(ObjectType("Query", [Field("f", Int, [Argument("o", outer, default_value={})], resolver=rec)]))
+        s.validate()
+        return s
+    probe("incomplete-default-handed-over:code-first:nested-input-object",
+          "a code-first input-object default that omits a defaulted field is handed to the resolver as declared (the nested declared default is "
+          "not filled in), the same value written in the request is completed", "code-first-nested", code_first,
+          "{ f }", "{ f(o: {inner: {}}) }", "query($o: Outer) { f(o: $o) }", {"o": {"inner": {}}})
+
+    # T14 ------------------------------------------------------------------------------------------------------------
+    class HideSecret(VisibilitySchemaTransform):
+        def is_input_field_visible(self, typename, fieldname):
+            return fieldname != "secret"
+
+    def hidden():
+        s = transform_schema(build_schema("input In { a: Int = 1 secret: Int = 2 } type Query { f(i: In = {a: 7, secret: 9}, l: [In!] = [{a: 1}]): Int }"),
+                             HideSecret())
+        s.register_resolver("Query", "f", rec)
+        return s
+    probe("hidden-input-field-in-default:resolver-receives-unknown-key",
+          "after VisibilitySchemaTransform hid In.secret the declared defaults still carry the key: the resolver receives a key that is no field of "
+          "the type (the same value inline is rejected, the reported default inline gives other arguments)", "hidden-input-field", hidden,
+          "{ f }", "{ f(i: {a: 7}, l: [{a: 1}]) }", "query($i: In, $l: [In!]) { f(i: $i, l: $l) }", {"i": {"a": 7}, "l": [{"a": 1}]},
+          key_ok=lambda kw: "secret" not in kw.get("i", {}) and all("secret" not in x for x in kw.get("l", [])))
+
+    # A12 ------------------------------------------------------------------------------------------------------------
+    class ImplementDate(SchemaVisitor):
+        def on_scalar(self, scalar):
+            if scalar.name == "Date":
+                return ScalarType("Date", serialize=lambda d: d.isoformat(), parse=lambda x: datetime.date.fromisoformat(x))
+            return scalar
+
+    def implemented():
+        s = transform_schema(build_schema('scalar Date input Range { start: Date = "2020-01-01" } '
+                                          'type Query { f(day: Date = "2020-01-02", days: [Date] = ["2020-01-03"], r: Range = {}): Int }'), ImplementDate())
+        s.register_resolver("Query", "f", rec)
+        return s
+    probe("default-differs-from-inline:scalar-implemented-by-visitor",
+          "a scalar implemented by a SchemaVisitor through transform_schema: the SDL defaults reach the resolver as the stand-in's strings, the same "
+          "literals inline / as variables as values of the scalar", "visitor-scalar-defaults", implemented,
+          "{ f }", '{ f(day: "2020-01-02", days: ["2020-01-03"], r: {start: "2020-01-01"}) }',
+          "query($d: Date, $ds: [Date], $r: Range) { f(day: $d, days: $ds, r: $r) }", {"d": "2020-01-02", "ds": ["2020-01-03"], "r": {"start": "2020-01-01"}})
+
+
 def run_enum_identity(ctx):
     """Enum members whose internal value has IDENTITY semantics (a plain object: hashable, no __eq__, mutable) or cannot be copied at all
     (a lock): "enum names are replaced by their internal values" means the resolver gets THAT object - not a copy of it - inline, through a
@@ -2148,20 +2243,30 @@ def names_of(reg):
     return [t["name"] for t in reg["types"]]
 
 
+def _timed(ctx, name, fn, *a, **kw):
+    """run one stream and record its wall time (evidence: where the budget of a tier goes)"""
+    t0 = time.time()
+    try:
+        return fn(*a, **kw)
+    finally:
+        ctx.extra["seconds:" + name] = round(ctx.extra.get("seconds:" + name, 0) + time.time() - t0, 1)
+
+
 def run(ctx):
     quick = ctx.tier == "quick"
     rng = ctx.rng
     # corpus first
-    run_corpus(ctx)
-    run_extremes(ctx)
-    run_cross_kind(ctx)
-    run_stand_in_scalar(ctx)
-    run_stand_in_variables(ctx)
-    run_code_defaults(ctx)
-    run_enum_identity(ctx)
-    run_nested_vars(ctx)
-    run_collisions(ctx)
-    run_pynum(ctx, ctx.n(2000, 15000))
+    _timed(ctx, "corpus", run_corpus, ctx)
+    _timed(ctx, "extremes", run_extremes, ctx)
+    _timed(ctx, "cross-kind", run_cross_kind, ctx)
+    _timed(ctx, "stand-in", run_stand_in_scalar, ctx)
+    _timed(ctx, "stand-in", run_stand_in_variables, ctx)
+    _timed(ctx, "code-defaults", run_code_defaults, ctx)
+    _timed(ctx, "default-shapes", run_default_shapes, ctx)
+    _timed(ctx, "enum-identity", run_enum_identity, ctx)
+    _timed(ctx, "nested-vars", run_nested_vars, ctx)
+    _timed(ctx, "collisions", run_collisions, ctx)
+    _timed(ctx, "pynum", run_pynum, ctx, ctx.n(2000, 15000))
     # the hand-written registry: all type expressions up to 3 wrappers (quick: all <=2, a sample of depth 3)
     reg = U.fixed_registry()
     allt = U.all_types(names_of(reg), 3)
@@ -2172,10 +2277,10 @@ def run(ctx):
     else:
         types = allt
     ctx.extra["type_expressions_fixed_registry"] = len(types)
-    run_registry(ctx, reg, "fixed", types, per_type=8 if quick else 14, depth=2 if quick else 3,
-                 max_cases=1400 if quick else 16000, n_abstract=4 if quick else 16, n_trace=100 if quick else 1500)
+    _timed(ctx, "fixed-registry", run_registry, ctx, reg, "fixed", types, per_type=8 if quick else 14, depth=2 if quick else 3,
+           max_cases=1400 if quick else 13000, n_abstract=4 if quick else 16, n_trace=100 if quick else 1200)
     # seeded random registries
-    n = ctx.n(2, 10)
+    n = ctx.n(2, 8)       # thorough: 8 registries x 1500 cases (was 10; the tier ran 7 min, see seconds:* in the evidence)
     for i in range(n):
         if ctx.time_left() < (15 if quick else 60):
             ctx.notes.append("stopped before random registry %d (time)" % i)
@@ -2183,12 +2288,12 @@ def run(ctx):
         r = U.gen_registry(rng)
         at = U.all_types(names_of(r), 3)
         types = rng.sample(at, min(len(at), 30 if quick else 80))
-        run_registry(ctx, r, "rnd%d" % i, types, per_type=6 if quick else 10, depth=2,
-                     max_cases=250 if quick else 1500, n_abstract=2 if quick else 6, n_trace=30 if quick else 200)
+        _timed(ctx, "random-registries", run_registry, ctx, r, "rnd%d" % i, types, per_type=6 if quick else 10, depth=2,
+               max_cases=250 if quick else 1500, n_abstract=2 if quick else 6, n_trace=30 if quick else 200)
     # schemas with a past: used, then derived (visibility / camel-case transforms, `fields` setter, clone), then checked
     from corr import C07_history, C07_tree
-    C07_tree.run(ctx, sys.modules[__name__])
-    C07_history.run(ctx, sys.modules[__name__])
+    _timed(ctx, "tree", C07_tree.run, ctx, sys.modules[__name__])
+    _timed(ctx, "history", C07_history.run, ctx, sys.modules[__name__])
     ctx.extra["int_range_test_source"] = int_range_test()[2]
     ctx.extra["float_finiteness_guard_source"] = float_guard()[1] or ["<none>"]
 
@@ -2216,6 +2321,10 @@ def replay(ctx, data, record=False):
         c2 = type(ctx)(ctx.prop, ctx.tier, ctx.seed)
         run_code_defaults(c2)
         return not any(f["signature"] == data.get("signature") for f in c2.found)
+    if inp.get("check") == "default-shape":
+        c2 = type(ctx)(ctx.prop, ctx.tier, ctx.seed)
+        run_default_shapes(c2)
+        return not any(f["signature"] == data.get("signature") for f in c2.found)
     if inp.get("check") == "enum-identity":
         c2 = type(ctx)(ctx.prop, ctx.tier, ctx.seed)
         run_enum_identity(c2)
@@ -2230,6 +2339,9 @@ def replay(ctx, data, record=False):
         run_nested_vars(c2)
         sig = data.get("signature")
         return not any(f["signature"] == sig for f in c2.found)
+    if inp.get("check") == "derivation-refused":
+        from corr import C07_history
+        return C07_history.replay_det_refused(sys.modules[__name__], inp)
     if inp.get("check") == "declaration":
         from corr import C07_history
         h = inp["history"]
